@@ -2,6 +2,9 @@ import BSModel.Model.Adapter
 import BSModel.Proofs.AdapterVoid
 import BSModel.Proofs.AdapterRefs
 import BSModel.Props.C03
+import BSModel.Proofs.WriterBuild
+import BSModel.Proofs.WriterViews
+import BSModel.Gen.Cp1252
 /-! # C04 — html.parser documents become the tree the markup describes
 
 The adapter `BeautifulSoupHTMLParser` as a function from the standard-library parser's callback stream to builder
@@ -208,5 +211,217 @@ theorem repaired_startendtag_sibling :
 /-! non-vacuity of `charref_denotes_decimal`: `&#9731;` is the snowman -/
 example : handleCharref wCfg (decDigits 4 9731) = [9731] :=
   charref_denotes_decimal wCfg 4 9731 (by decide) (by decide) (by decide) (by decide) (by decide)
+
+/-! ## the whole-document theorem: the markup of a well-formed writer becomes the tree it describes
+
+`Writer.WDoc` is the document a writer has in mind, `Writer.emitDoc iv c ds` the html.parser callback stream of its
+markup under the writer's per-occurrence choices `c` (Model/Writer.lean: every void element spelt `<br>`, `<br/>`
+or `<br></br>`; every text cut into arbitrarily many chunks, every character of it spelt literally, as a decimal or
+hexadecimal reference with any number of leading zeros in either case, or as a named reference; every letter of
+the keyword of a doctype/CDATA section in either case; start-tag positions whatever the in-tag whitespace makes them), and
+`Writer.normalise` the tree the document describes. Hypotheses, all decidable and explicit:
+
+ * `CfgOK bcfg` (C03): the `BeautifulSoup` object's own name is neither whitespace-preserving nor a string container;
+ * `Representable`: no element is named like the `BeautifulSoup` object; a void element has no children;
+ * `WellSpelt`: every reference the writer chose denotes the character it stands for (`numericOK`: a code point,
+   and not one of the bytes 128–159 that bs4's Windows-1252 detour re-maps; a decimal digit string no longer than
+   `sys.int_max_str_digits`; a name that is in `HTML_ENTITY_TO_CHARACTER` with exactly that character).
+
+The harness (`harness/c04.py`, stream `writer`) ties both ends to the real code: the recorded callbacks of the
+real tokenizer on the written text equal `emitDoc` for the choices the writer took, and the real parse equals
+`normalise`; it also runs the real code at the excluded points. -/
+
+section Whole
+open BS.Writer
+
+/-- **emit_build — html.parser documents become the tree their markup describes.** For every document, every
+    assignment of the writer's choices and every adapter/builder configuration: feeding the callback stream of the
+    written markup through `BeautifulSoupHTMLParser` (void handling via `already_closed_empty_element`, reference
+    conversion, string classes) and the construction machine of C03 (the code-mirror `build`) yields exactly
+    `normalise`: elements nested as written, void elements childless siblings of what follows, adjacent text merged
+    with every reference replaced by its character, whitespace-only runs collapsed per C03's rule, text classes
+    from the nearest string container, comments/CDATA/doctypes/declarations/PIs in their classes and in place —
+    and `Tag.__init__` receives the attributes and positions of the start tags in document order. -/
+theorem emit_build (bcfg : Cfg) (acfg : ACfg) (hc : CfgOK bcfg) (ds : List WDoc) (c : Choices)
+    (hr : Representable bcfg acfg ds) (hs : WellSpelt acfg c.char ds) :
+    adapterBuild bcfg acfg (emitDoc acfg.isVoid c ds) = (normalise bcfg ds, startInfos acfg c ds) := by
+  simp only [adapterBuild, toEvents_emitDoc]
+  rw [BS.Props.C03.build_refines bcfg hc, buildSpec_bev_normalise bcfg acfg c ds hr hs]
+
+/-! the mixed sample document of the non-vacuity examples:
+    `<!doctype html><p id=x k>a&amp;b<br>&#0099;<br/>&#X64;<br></br><!--note--></p><pre> \n </pre> \n ` -/
+def xB : Cfg :=
+  { preserve := fun n => n == [112, 114, 101], container := fun n => if n == [114, 116] then some 9 else none,
+    asciiSpaces := [32, 10, 9, 12, 13], rootName := [91, 100, 111, 99, 117, 109, 101, 110, 116, 93] }
+def xA : ACfg :=
+  { isVoid := fun n => n == [98, 114], dup := .replace, storeLines := true,
+    entity := fun n => if n == [97, 109, 112] then some [38] else none,
+    cp1252 := fun n => if n < 128 || 160 ≤ n then some n else if n == 150 then some 8211 else none,
+    origDecode := fun _ => none, maxDigits := 4300 }
+def xDoc : List WDoc :=
+  [ .special .doctype [104, 116, 109, 108],
+    .elem [112] [([105, 100], some [120]), ([107], none)]
+      [ .text [97, 38, 98], .elem [98, 114] [] [], .text [99], .elem [98, 114] [] [], .text [100], .elem [98, 114] [] [],
+        .special .comment [110, 111, 116, 101] ],
+    .elem [112, 114, 101] [] [ .text [32, 10, 32] ],
+    .text [32, 10, 32] ]
+/-- `<br>` at path [1,1], `<br/>` at [3,1], `<br></br>` at [5,1]; `&amp;` for the `&`; `&#0099;` for `c`; `&#X64;`
+    for `d`; the `b` after `&amp;` starts a new chunk; lower-case `doctype` -/
+def xC : Choices :=
+  { void := fun p => if p == [1, 1] then .plain else if p == [3, 1] then .slash else .pair,
+    pos := fun p => (1, 10 * p.length + p.headD 0),
+    char := fun p i =>
+      if p == [0, 1] && i == 1 then .named [97, 109, 112]
+      else if p == [0, 1] && i == 2 then .lit true
+      else if p == [2, 1] then .dec 2
+      else if p == [4, 1] then .hex true false 0
+      else .lit false,
+    kwCase := fun _ _ => false }
+/-- the other extreme: every void element `<br/>`, everything literal and in one chunk, `DocType` -/
+def xC' : Choices := { xC with void := fun _ => .slash, char := fun _ _ => .lit false, kwCase := fun _ i => i % 3 == 0 }
+
+def xTree : List Doc :=
+  [ .text 5 [104, 116, 109, 108],
+    .elem [112] none [ .text 0 [97, 38, 98], .elem [98, 114] none [], .text 0 [99], .elem [98, 114] none [], .text 0 [100],
+      .elem [98, 114] none [], .text 1 [110, 111, 116, 101] ],
+    .elem [112, 114, 101] none [ .text 0 [32, 10, 32] ],
+    .text 0 [10] ]
+
+example : CfgOK xB := by decide
+example : Representable xB xA xDoc := by decide
+example : WellSpelt xA xC.char xDoc := by decide
+/-- the callbacks of the sample: all three void spellings, the entity between two data chunks, both numeric forms -/
+example : (emitDoc xA.isVoid xC xDoc).length = 17 := by decide
+example : codeL (normalise xB xDoc) = codeL xTree := by decide
+example : codeL (adapterBuild xB xA (emitDoc xA.isVoid xC xDoc)).1 = codeL xTree := by decide
+example : adapterBuild xB xA (emitDoc xA.isVoid xC xDoc) = (normalise xB xDoc, startInfos xA xC xDoc) :=
+  emit_build xB xA (by decide) xDoc xC (by decide) (by decide)
+/-- the excluded points are genuinely excluded: `&#150;` does not denote U+0096 (Windows-1252 detour) and a void
+    element with a child is not what `<br>x</br>` builds -/
+example : numericOK xA 150 = false ∧ handleCharref xA (decName 0 150) = [8211] := by decide
+example : ¬ Representable xB xA [.elem [98, 114] [] [.text [120]]] := by decide
+
+/-- **the spelling of void elements is irrelevant**: two assignments of the writer's choices that differ only in
+    how void elements are spelt (`<br>`, `<br/>`, `<br></br>`, in any mixture) — and in the case of the
+    doctype/CDATA keywords — give the same tree and the same attributes and positions -/
+theorem void_spelling_irrelevant (bcfg : Cfg) (acfg : ACfg) (hc : CfgOK bcfg) (ds : List WDoc) (c1 c2 : Choices)
+    (hchar : c1.char = c2.char) (hpos : c1.pos = c2.pos)
+    (hr : Representable bcfg acfg ds) (hs : WellSpelt acfg c1.char ds) :
+    adapterBuild bcfg acfg (emitDoc acfg.isVoid c1 ds) = adapterBuild bcfg acfg (emitDoc acfg.isVoid c2 ds) := by
+  rw [emit_build bcfg acfg hc ds c1 hr hs, emit_build bcfg acfg hc ds c2 hr (hchar ▸ hs)]
+  simp only [startInfos, infosL_congr acfg c1 c2 hpos]
+
+example : adapterBuild xB xA (emitDoc xA.isVoid xC xDoc) =
+    adapterBuild xB xA (emitDoc xA.isVoid { xC with void := fun _ => .slash } xDoc) :=
+  void_spelling_irrelevant xB xA (by decide) xDoc xC _ rfl rfl (by decide) (by decide)
+
+/-- **the spelling of references and the chunking of text are irrelevant**: any two assignments of choices whose
+    references denote the characters they stand for — literal or decimal or hexadecimal or named, however many
+    leading zeros, whichever case, wherever the text is cut into chunks — give the same tree (and, with the same
+    start-tag positions, the same start infos); the void spellings may differ as well -/
+theorem reference_spelling_irrelevant (bcfg : Cfg) (acfg : ACfg) (hc : CfgOK bcfg) (ds : List WDoc) (c1 c2 : Choices)
+    (hr : Representable bcfg acfg ds) (hs1 : WellSpelt acfg c1.char ds) (hs2 : WellSpelt acfg c2.char ds) :
+    (adapterBuild bcfg acfg (emitDoc acfg.isVoid c1 ds)).1 = (adapterBuild bcfg acfg (emitDoc acfg.isVoid c2 ds)).1 ∧
+    (c1.pos = c2.pos →
+      adapterBuild bcfg acfg (emitDoc acfg.isVoid c1 ds) = adapterBuild bcfg acfg (emitDoc acfg.isVoid c2 ds)) := by
+  rw [emit_build bcfg acfg hc ds c1 hr hs1, emit_build bcfg acfg hc ds c2 hr hs2]
+  refine ⟨rfl, fun hpos => ?_⟩
+  simp only [startInfos, infosL_congr acfg c1 c2 hpos]
+
+example : WellSpelt xA xC'.char xDoc := by decide
+example : adapterBuild xB xA (emitDoc xA.isVoid xC xDoc) = adapterBuild xB xA (emitDoc xA.isVoid xC' xDoc) :=
+  (reference_spelling_irrelevant xB xA (by decide) xDoc xC xC' (by decide) (by decide) (by decide)).2 rfl
+-- the two callback streams really differ
+example : (emitDoc xA.isVoid xC' xDoc).length = 14 := by decide
+
+/-- **elements nest as their tags do**: forgetting every string, the built tree is the element skeleton of the
+    document — same names, same nesting, same order; in particular every void element is childless and what
+    follows it is its sibling -/
+theorem nesting_preserved (bcfg : Cfg) (acfg : ACfg) (hc : CfgOK bcfg) (ds : List WDoc) (c : Choices)
+    (hr : Representable bcfg acfg ds) (hs : WellSpelt acfg c.char ds) :
+    skelL (adapterBuild bcfg acfg (emitDoc acfg.isVoid c ds)).1 = wskelL ds := by
+  rw [emit_build bcfg acfg hc ds c hr hs]
+  exact skel_normalise bcfg ds
+
+example : codeL (skelL (adapterBuild xB xA (emitDoc xA.isVoid xC xDoc)).1) =
+    codeL [.elem [112] none [.elem [98, 114] none [], .elem [98, 114] none [], .elem [98, 114] none []],
+           .elem [112, 114, 101] none []] := by decide
+
+/-- **attribute names and values keep their content and order**: the elements of the built tree, in document
+    order, have the names of the document's tags, `Tag.__init__` is handed one attribute dictionary per element in
+    that order, and — when no attribute name repeats within a tag — that dictionary is the written attribute list:
+    same names, same values (a missing value as the empty string), same order, under every
+    `on_duplicate_attribute` policy. (Repeated names: `dup_ignore_first`, `dup_replace_last`, `dup_accumulate`.) -/
+theorem attributes_preserved (bcfg : Cfg) (acfg : ACfg) (hc : CfgOK bcfg) (ds : List WDoc) (c : Choices)
+    (hr : Representable bcfg acfg ds) (hs : WellSpelt acfg c.char ds)
+    (hn : ∀ t ∈ wtagsL ds, keysNodup (t.2.map (·.1)) = true) :
+    namesL (adapterBuild bcfg acfg (emitDoc acfg.isVoid c ds)).1 = (wtagsL ds).map (·.1) ∧
+    (adapterBuild bcfg acfg (emitDoc acfg.isVoid c ds)).2.map (·.attrs) = (wtagsL ds).map (fun t => plainAttrs t.2) := by
+  rw [emit_build bcfg acfg hc ds c hr hs]
+  refine ⟨names_normalise bcfg ds, ?_⟩
+  simp only [startInfos, infosL_attrs bcfg acfg c ds [] 0 hr]
+  exact List.map_congr_left (fun t ht => attrDict_nodup acfg.dup t.2 (hn t ht))
+
+example : ((adapterBuild xB xA (emitDoc xA.isVoid xC xDoc)).2.map (·.attrs) ==
+    [[([105, 100], .one [120]), ([107], .one [])], [], [], [], []]) = true := by
+  rw [(attributes_preserved xB xA (by decide) xDoc xC (by decide) (by decide) (by decide)).2]; decide
+
+/-- **comments, CDATA sections, doctypes, declarations and processing instructions keep their content and
+    order**: the special strings of the built tree, in document order, are those of the document, each in its class
+    (a declaration whose text starts with `CDATA[` IS a CDATA section) and with its content — after C03's whitespace
+    rule, which `endData` applies to every string and which leaves anything but a run of ASCII spaces alone
+    (`special_content_verbatim`). `ContainersApart`: no string container hands out one of the five special classes. -/
+theorem special_strings_preserved (bcfg : Cfg) (acfg : ACfg) (hc : CfgOK bcfg) (hk : ContainersApart bcfg)
+    (ds : List WDoc) (c : Choices) (hr : Representable bcfg acfg ds) (hs : WellSpelt acfg c.char ds) :
+    specialsL (adapterBuild bcfg acfg (emitDoc acfg.isVoid c ds)).1 = wspecialsL bcfg [bcfg.rootName] ds := by
+  rw [emit_build bcfg acfg hc ds c hr hs]
+  exact specials_normalise bcfg hk ds
+
+/-- … and that content is the written one verbatim, unless it consists of ASCII spaces only and no enclosing
+    element preserves whitespace -/
+theorem special_content_verbatim (bcfg : Cfg) (ctx : List Name) (k : Kind) (s : PStr)
+    (h : ctx.any bcfg.preserve = true ∨ (specialText k s).2.all (fun ch => bcfg.asciiSpaces.contains ch) = false) :
+    wspecials bcfg ctx (.special k s) = [((specialText k s).1, (specialText k s).2)] := by
+  simp only [wspecials, wsRule_keep bcfg ctx _ h]
+
+example : ContainersApart xB := by
+  intro n c h
+  simp only [xB] at h
+  split at h
+  · cases h; decide
+  · cases h
+example : specialsL (adapterBuild xB xA (emitDoc xA.isVoid xC xDoc)).1 =
+    [(clsDoctype, [104, 116, 109, 108]), (clsComment, [110, 111, 116, 101])] := by decide
+
+/-- **numeric references denote their characters in every spelling**: decimal with any number of leading zeros
+    (up to `sys.int_max_str_digits` digits in all) and hexadecimal with `x` or `X`, any number of leading zeros and
+    digits in either case, for every code point `numericOK` admits -/
+theorem numeric_reference_denotes (cfg : ACfg) (n : Nat) (hok : numericOK cfg n = true) :
+    (∀ z, (decName z n).length ≤ cfg.maxDigits → handleCharref cfg (decName z n) = [n]) ∧
+    (∀ ux ud z, handleCharref cfg (hexName ux ud z n) = [n]) :=
+  ⟨fun z hl => dec_denotes cfg z n hok hl, fun ux ud z => hex_denotes cfg ux ud z n hok⟩
+
+example : handleCharref xA (hexName true true 3 9731) = [9731] ∧ hexName true true 3 9731 = [88, 48, 48, 48, 50, 54, 48, 51] :=
+  ⟨(numeric_reference_denotes xA 9731 (by decide)).2 true true 3, by decide⟩
+
+/-- the live Windows-1252 table (CPython's codec, generated) with no document encoding (`str` input) -/
+def liveRefCfg : ACfg :=
+  { xA with cp1252 := fun n => (BS.Gen.cp1252Table.find? (fun e => e.1 == n)).map (·.2), origDecode := fun _ => none }
+
+/-- **which characters cannot be written as numeric references**, on the live table: exactly the 27 code points
+    128–159 that Windows-1252 maps elsewhere (`&#150;` is an en dash, not U+0096); the five bytes it leaves undefined
+    (129, 141, 143, 144, 157) and everything else up to U+10FFFF denote themselves -/
+theorem numericOK_live (n : Nat) (hn : n ≤ 0x10FFFF) :
+    numericOK liveRefCfg n = !(128 ≤ n && n ≤ 159 && !([129, 141, 143, 144, 157].contains n)) := by
+  by_cases h : n < 256
+  · have key : (List.range 256).all (fun n =>
+        numericOK liveRefCfg n == !(128 ≤ n && n ≤ 159 && !([129, 141, 143, 144, 157].contains n))) = true := by
+      decide +kernel
+    have := (List.all_eq_true.mp key) n (List.mem_range.mpr h)
+    simpa using this
+  · have h1 : ¬ n ≤ 159 := by omega
+    simp [numericOK, hn, h1]; omega
+
+end Whole
 
 end BS.Props.C04
